@@ -341,7 +341,7 @@ func runScenario(seed int64, sc *scenario) ([]tr.Ev, []string) {
 		if bh != nil {
 			bh.close()
 		}
-		return evs, rec.bad
+		return annotate(evs), rec.bad
 	}
 	// quiescence: every scheduled answer written, every receiver goroutine finished, nothing more arriving
 	if p != nil {
@@ -387,7 +387,33 @@ func runScenario(seed int64, sc *scenario) ([]tr.Ev, []string) {
 	if bh != nil {
 		bh.close()
 	}
-	return evs, rec.bad
+	return annotate(evs), rec.bad
+}
+
+// annotate completes each RecvBegin{q} with the result its goroutine reported later (RecvLookup{q}.found): f = 1 found,
+// 0 not found, 2 no lookup reported (push packet, run cut short).  The lookup itself is not an event; knowing its result
+// when the window opens lets the trace specification place it without search.
+func annotate(evs []tr.Ev) []tr.Ev {
+	res := map[int]int{}
+	for _, e := range evs {
+		if e["e"] == "RecvLookup" {
+			f := 0
+			if e["found"].(bool) {
+				f = 1
+			}
+			res[e["q"].(int)] = f
+		}
+	}
+	for _, e := range evs {
+		if e["e"] == "RecvBegin" {
+			if f, ok := res[e["q"].(int)]; ok {
+				e["f"] = f
+			} else {
+				e["f"] = 2
+			}
+		}
+	}
+	return evs
 }
 
 func errClass(err error) string {
